@@ -256,7 +256,14 @@ func (p c13) jsonShapes(e *c13env) {
 			pk := posKind(e.s, ps.path)
 			kn := jsonKindNames[ki]
 			scalar := kn == "bool" || kn == "number" || kn == "string"
-			if (pk == "list" && (scalar || kn == "object" || kn == "empty-object")) || (pk == "container" && scalar) {
+			structured := kn == "object" || kn == "empty-object" || kn == "array-of-objects" || kn == "array-of-arrays"
+			// an object or an array of arrays / objects where a leaf (a key, an element of a leaf-list) holds one value is no value of any type
+			leafy := (pk == "leaf" || pk == "key" || pk == "leaf-list-element") && structured
+			// several values where the schema has one (a union may have an empty member, written [null])
+			if n := nodeAt(e.s, ps.path); (pk == "leaf" || pk == "key") && (kn == "array-of-scalars" || kn == "empty-array") && n != nil && n.Type != nil && n.Type.Wrap != "union" {
+				leafy = true
+			}
+			if leafy || (pk == "list" && (scalar || kn == "object" || kn == "empty-object")) || (pk == "container" && scalar) {
 				e.tryShape("json-shape", kn+"-at-"+pk, doc, func() error { return upsertJSON(e, doc) })
 				continue
 			}
@@ -377,15 +384,38 @@ func posKind(s *dp.Schema, path []interface{}) string {
 			if cur.IsKey() {
 				kind = "key"
 			}
+			if cur.Type != nil && cur.Type.Base == "empty" {
+				// present with any content: the library's own tests write {"x":{}} for it
+				kind = "empty-" + kind
+			}
 		case int:
 			if cur != nil && cur.Kind == dp.List {
 				kind = "entry"
+			} else if cur != nil && cur.Type != nil && cur.Type.Base == "empty" {
+				kind = "empty-element"
 			} else {
 				kind = "leaf-list-element"
 			}
 		}
 	}
 	return kind
+}
+
+func nodeAt(s *dp.Schema, path []interface{}) *dp.SNode {
+	var cur *dp.SNode
+	for _, st := range path {
+		if k, ok := st.(string); ok {
+			if cur == nil {
+				cur = s.TopChild(k)
+			} else {
+				cur = cur.Child(k)
+			}
+			if cur == nil {
+				return nil
+			}
+		}
+	}
+	return cur
 }
 
 var mutChars = []string{"", "{", "}", "[", "]", ",", ":", "\"", "\\", "0", "null", " "}
